@@ -100,6 +100,15 @@ def _run_one(args):
             if r['status'] == 'sat' and _has_incomplete_ghost(ob):
                 # a model under the incomplete axioms of exp/log/rpow/f32 is not a counterexample: undecided, not refuted
                 r = dict(r, status='unknown', reason='satisfiable only under the incomplete axiomatisation of transcendental ghost functions')
+            if r['status'] == 'sat' and getattr(ob, 'full', None) is not None:
+                # the reduced (isolated / generalised) query has a model: only a model of the FULL obligation is a counterexample
+                r2 = smt.solve(list(ob.full[0]) + [z3.Not(ob.full[1])], timeout_ms=timeout)
+                rec['time'] += r2['time']
+                if r2['status'] == 'unsat':
+                    continue
+                if r2['status'] == 'sat' and _has_incomplete_ghost(ob):
+                    r2 = dict(r2, status='unknown', reason='satisfiable only under the incomplete axiomatisation of transcendental ghost functions')
+                r = r2 if r2['status'] == 'sat' else dict(r2, status='unknown', reason='reduced query has a model, full obligation undecided: ' + str(r2.get('reason')))
             if r['status'] == 'sat':
                 rec['status'] = 'refuted'
                 rec['model'] = r.get('model')
